@@ -532,8 +532,20 @@ def host_rules(ctx, prefix):
     if pq:
         g = pq[0]
         host_if = [n for n in sir.walk(g.body) if n.get("k") == "if" and "convert_host" in sir.expr_str(n["cond"])]
-        ok = len(host_if) == 1
-        d = "everything :host-related is behind options.convert_host: %s" % ok
+
+        def conjuncts(c):
+            if c.get("k") == "binary" and c.get("op") == "&&":
+                return conjuncts(c["l"]) + conjuncts(c["r"])
+            return [c]
+        ok = len(host_if) == 1 and any(re.fullmatch(r"(\w+\.)*options\.convert_host", sir.expr_str(c).replace(" ", "")) for c in conjuncts(host_if[0]["cond"]))
+        d = "everything :host-related is behind a condition that implies options.convert_host (`%s`): %s" % (sir.expr_str(host_if[0]["cond"]) if host_if else None, ok)
+        # other mentions of the host options outside that branch
+        if ok:
+            inside = set(id(x) for x in sir.walk(host_if[0]))
+            stray = [sir.expr_str(x) for x in sir.walk(g.body) if x.get("k") == "field" and x.get("name") in ("host_is", "convert_host") and id(x) not in inside]
+            if stray:
+                ok = False
+                d = "host options are consulted outside the convert_host branch: %s" % stray
         if ok:
             blk = host_if[0]["then"]
             # invalid combination: warning and no output
@@ -547,6 +559,32 @@ def host_rules(ctx, prefix):
                 e_low = e is not None and any(x.get("k") == "mcall" and x["m"] == "write_in_low_priority" for x in sir.walk(e))
                 ok2 = (not t_out) and t_warn and e_low
             obs.append(ob("%s.only/illegal-combination" % prefix, ok2, ctx.where(g), ":host combined with other selectors: warning, no output in either stream; plain :host: written through write_in_low_priority: %s" % ok2))
+            # detection is exact: `:` followed by the identifier `host` (plain) or the function `host(` (illegal combination)
+            det = None
+            for m in sir.walk(blk):
+                if m.get("k") == "match" and any("Token::Ident" in sir.pat_str(a["pat"]) for a in m["arms"]) and any("Token::Function" in sir.pat_str(a["pat"]) for a in m["arms"]) and len(m["arms"]) == 3:
+                    det = m
+                    break
+            okd = False
+            dd = "detection match not found"
+            if det is not None:
+                probs = []
+                for a in det["arms"][:2]:
+                    gd = a.get("guard")
+                    gs = sir.expr_str(gd).replace(" ", "") if gd is not None else ""
+                    def is_host_lit(x):
+                        x = sir.strip_ref(x)
+                        return x.get("k") == "lit" and x.get("t") in ("str", "bytestr") and x.get("v") == "host"
+                    exact = gd is not None and ((gd.get("k") == "binary" and gd.get("op") == "==" and (is_host_lit(gd["l"]) or is_host_lit(gd["r"])))
+                                                or (gd.get("k") == "mcall" and gd["m"] in ("eq", "eq_ignore_ascii_case") and gd["args"] and is_host_lit(gd["args"][0])))
+                    if not exact:
+                        probs.append("arm `%s` is guarded by `%s`, not by equality with `host`" % (sir.pat_str(a["pat"]), gs))
+                last = det["arms"][2]
+                if not (last["pat"].get("k") == "p_wild" and last["body"].get("k") == "return" and last["body"].get("e") is not None and sir.expr_str(last["body"]["e"]).startswith("Err(")):
+                    probs.append("anything else must fail the look-ahead (`_ => return Err`)")
+                okd = not probs
+                dd = "; ".join(probs) if probs else "`:host` / `:host(` are recognised by exact comparison; any other token fails the look-ahead and the rule is parsed normally"
+            obs.append(ob("%s.only/detection" % prefix, okd, ctx.where(g), dd, witness=None if okd else "`:host-context(.dark) .a{}` is swallowed as an illegal :host combination"))
             # the selector written: [wx-host="<prefix>"] (,[is="<host>"])
             lits = [x.get("v") for x in sir.walk(blk) if x.get("k") == "lit" and x.get("t") == "str"]
             ok3 = "wx-host" in lits and "is" in lits and b"host".decode() in [y for y in lits] or ("wx-host" in lits and "is" in lits)
@@ -610,8 +648,10 @@ def import_rules(ctx, prefix):
         dsc = "comment is `%s` with %s" % (text, holes)
     obs.append(ob("%s.encode/payload" % prefix, ok, where, dsc + " (sign, one space, percent-encoded path: `*/` cannot occur in the payload)"))
     rp = [n for n in sir.walk(f.body) if n.get("k") == "local" and n["pat"].get("name") == "rel_path"]
-    ok = bool(rp) and "expect_string_cloned" in sir.expr_str(rp[0]["init"])
-    obs.append(ob("%s.encode/source" % prefix, ok, where, "the path is the decoded string token (expect_string_cloned): %s" % ok))
+    reassigned = [n for n in sir.walk(f.body) if n.get("k") in ("assign", "binary") and n.get("op", "=").endswith("=") and n.get("op") not in ("==", "!=", "<=", ">=") and sir.expr_str(n["l"]) == "rel_path"]
+    ok = len(rp) == 1 and not reassigned and rp[0].get("init") is not None and sir.expr_str(rp[0]["init"]).replace(" ", "") == "input.expect_string_cloned()?"
+    obs.append(ob("%s.encode/source" % prefix, ok, where, "the encoded path is bound exactly once, to the decoded string token itself (`%s`); %d bindings, %d re-assignments" % (sir.expr_str(rp[0]["init"]) if rp and rp[0].get("init") is not None else None, len(rp), len(reassigned)),
+                  witness=None if ok else "a path with leading/trailing blanks (or whatever the extra binding normalises) is not recoverable from the placeholder"))
     uses_comment = any(n.get("k") == "call" and "Token::Comment" in (sir.call_path(n) or "") and "comment" in sir.expr_str(n) for n in sir.walk(f.body))
     obs.append(ob("%s.encode/comment-token" % prefix, uses_comment, where, "payload is written as a Comment token: %s" % uses_comment))
     # condition wrappers: layer/supports -> at-keyword of the same name; anything else is rejected
@@ -639,6 +679,55 @@ def import_rules(ctx, prefix):
     comment_i = [i for i, n in enumerate(nodes) if n.get("k") == "call" and "Token::Comment" in (sir.call_path(n) or "")]
     drain = [i for i, n in enumerate(nodes) if n.get("k") == "while" and "close_stack.pop()" in sir.expr_str(n["cond"]).replace(" ", "")]
     ok = len(pushes) == len(curly_opens) and len(pushes) >= 2 and comment_i and drain and any(dd > comment_i[0] for dd in drain)
+    # every exit after the first push is directly preceded by a full drain (`while let Some(close) = close_stack.pop() { ..close(close).. }`)
+    pm = sir.parent_map(f.body)
+
+    def is_drain(st):
+        e = st.get("e") if st.get("k") == "expr" else st
+        return (e is not None and e.get("k") == "while" and e["cond"].get("k") == "let" and sir.expr_str(e["cond"]["e"]).replace(" ", "") == "close_stack.pop()"
+                and "Some" in sir.pat_str(e["cond"]["pat"]) and any(x.get("k") == "mcall" and x["m"] == "append_nested_block_close" for x in sir.walk(e["body"])))
+
+    def prev_stmt(n):
+        cur = n
+        while id(cur) in pm:
+            par = pm[id(cur)]
+            if par.get("k") == "block":
+                for i, st in enumerate(par["stmts"]):
+                    if st is cur or st.get("e") is cur:
+                        return par["stmts"][i - 1] if i > 0 else None
+                return None
+            cur = par
+        return None
+    first_push = pushes[0] if pushes else None
+    exits = []
+    closure = None
+    for n in nodes:
+        if n.get("k") == "closure" and any(x is nodes[first_push] for x in sir.walk(n)) if first_push is not None else False:
+            closure = n
+    undrained = []
+    n_exits = 0
+    if closure is not None:
+        cn = list(sir.walk(closure["body"], into_closures=False))
+        pos = {id(x): i for i, x in enumerate(cn)}
+        fp = pos.get(id(nodes[first_push]), 0)
+        for x in cn:
+            if x.get("k") == "return" and pos[id(x)] > fp:
+                n_exits += 1
+                ps_ = prev_stmt(x)
+                if ps_ is None or not is_drain(ps_):
+                    undrained.append("return at expanded line %d" % sir.line_of(x))
+            if x.get("k") == "try" and pos[id(x)] > fp:
+                n_exits += 1
+                undrained.append("`?` at expanded line %d can leave with wrappers open" % sir.line_of(x))
+        tail = closure["body"]["stmts"][-1] if closure["body"].get("k") == "block" else None
+        if tail is not None:
+            n_exits += 1
+            ps_ = closure["body"]["stmts"][-2] if len(closure["body"]["stmts"]) > 1 else None
+            if ps_ is None or not is_drain(ps_):
+                undrained.append("normal exit")
+    obs.append(ob("%s.pair/every-exit-drains" % prefix, closure is not None and not undrained and n_exits >= 3, where,
+                  "%d exits of the import rewriter lie after a wrapper may have been opened; each is directly preceded by a loop that closes every open wrapper" % n_exits if not undrained else "wrappers can stay open: %s" % undrained,
+                  witness=None if not undrained else "`@import 'a' layer(x) supports(y) ,;` leaves a `}` missing and swallows the rest of the sheet"))
     obs.append(ob("%s.pair/close-stack" % prefix, bool(ok), where, "%d wrapper blocks opened, %d pushed on close_stack; the stack is drained after the placeholder comment: %s" % (len(curly_opens), len(pushes), bool(ok))))
     # position warning
     warn = any(n.get("k") == "mcall" and n["m"] == "add_warning" and "IllegalImportPosition" in sir.expr_str(n) for n in nodes)
@@ -649,6 +738,13 @@ def import_rules(ctx, prefix):
         g = pr[0]
         s = [sir.expr_str(n) for n in sir.walk(g.body) if n.get("k") == "assign" and "at_file_start" in sir.expr_str(n["l"])]
         init = [sir.expr_str(n["init"]) for n in sir.walk(g.body) if n.get("k") == "local" and n["pat"].get("name") == "at_file_start"]
+        uncond = False
+        for lp in sir.walk(g.body):
+            if lp.get("k") in ("while", "loop"):
+                body = lp["body"]
+                uncond = any(st.get("k") == "expr" and st["e"].get("k") == "assign" and sir.expr_str(st["e"]["l"]) == "at_file_start" and st["e"]["r"].get("v") is False for st in body["stmts"])
+        obs.append(ob("%s.position/flag-unconditional" % prefix, uncond, ctx.where(g), "at_file_start is cleared by a top-level statement of the rule loop, whatever kind of rule was parsed: %s" % uncond,
+                      witness=None if uncond else "`@media screen{.a{}} @import './a';` is rewritten without IllegalImportPosition"))
         obs.append(ob("%s.position/flag" % prefix, init == ["True"] and len(s) == 1, ctx.where(g), "at_file_start starts true and is cleared after the first rule: %s %s" % (init, s)))
     # without a sign the rule passes through the generic at-rule path
     cond = [sir.expr_str(n["cond"]).replace(" ", "") for n in nodes if n.get("k") == "if" and "import_sign" in sir.expr_str(n["cond"]) and n["cond"].get("k") != "let"]
@@ -719,6 +815,39 @@ def sourcemap_rules(ctx, prefix):
         with_src = [c for c in calls if sir.expr_str(c["args"][2]).startswith("Some(Token::Dimension")]
         pos = all("next.position" in sir.expr_str(x) for x in sir.walk(f.body) if x.get("k") == "call" and (sir.call_path(x) or "").endswith("StepToken::wrap"))
         obs.append(ob("%s.src/rpx" % prefix, len(with_src) == 1 and pos, ctx.where(f), "the converted dimension carries the original token as name and the original position: %s" % (len(with_src) == 1 and pos)))
+        # the name token is the original token, field by field
+        def plain(e):
+            e = sir.strip_ref(e)
+            while e.get("k") == "unary" and e.get("op") == "*":
+                e = e["e"]
+            if e.get("k") == "mcall" and e["m"] == "clone" and not e["args"]:
+                e = e["recv"]
+            return sir.expr_str(e)
+        probs = []
+        if len(with_src) == 1:
+            lit = with_src[0]["args"][2]["args"][0]
+            flds = {x["name"]: plain(x["e"]) for x in lit.get("fields", [])}
+            params = set(f.param_names())
+            for nm in ("has_sign", "value", "int_value", "unit"):
+                if flds.get(nm) != nm or nm not in params:
+                    probs.append("field `%s` of the name token is `%s`, not the original token's `%s`" % (nm, flds.get(nm), nm))
+            muts = [sir.expr_str(x["l"]) for x in sir.walk(f.body) if x.get("k") in ("assign", "binary") and str(x.get("op", "=")).endswith("=") and x.get("op") not in ("==", "!=", "<=", ">=") and sir.expr_str(x["l"]) in ("has_sign", "value", "int_value", "unit")]
+            shadows = [x["pat"].get("name") for x in sir.walk(f.body) if x.get("k") == "local" and x["pat"].get("name") in ("has_sign", "value", "int_value", "unit")]
+            if muts or shadows:
+                probs.append("the original fields are modified before use: %s" % (muts + shadows))
+        callers = 0
+        for g in sc.fns:
+            if not g.body:
+                continue
+            for c in sir.walk(g.body):
+                if c.get("k") == "call" and sir.call_name(c) == "write_maybe_rpx_dimension" and len(c["args"]) == 7:
+                    callers += 1
+                    got = [plain(a) for a in c["args"][3:]]
+                    if got != ["has_sign", "value", "int_value", "unit"]:
+                        probs.append("%s passes %s" % (g.name, got))
+        obs.append(ob("%s.src/rpx-name" % prefix, len(with_src) == 1 and not probs and callers >= 2, ctx.where(f),
+                      "; ".join(probs) if probs else "the name of a rewritten rpx value is rebuilt from the matched token's own has_sign/value/int_value/unit (%d call sites)" % callers,
+                      witness=None if not probs else "`+15rpx` is named `15rpx`"))
     wc = [f for f in sc.fns if f.name == "write_maybe_class_name" and f.body]
     if wc:
         f = wc[0]
@@ -752,12 +881,53 @@ def sourcemap_rules(ctx, prefix):
                 flds = {x["name"]: sir.expr_str(x["e"]).replace(" ", "") for x in n["fields"]}
         ok = flds.get("utf16_col") == "loc.column-1" and flds.get("line") == "loc.line"
         obs.append(ob("%s.src/position" % prefix, ok, ctx.where(f), "positions are (line, column-1) of cssparser's current_source_location: %s" % ok))
-    # peek/next take the position before reading the token
-    for nm in ("next_including_whitespace", "peek_including_whitespace"):
-        g = [f for f in sc.fns if f.name == nm and f.base == "StepParser" and f.body]
+    # the position of a StepToken is sampled immediately before a cssparser call that consumes exactly one token
+    sps = [f for f in sc.fns if f.base == "StepParser" and f.body]
+    raw = []
+    for f in sps:
+        pm = sir.parent_map(f.body)
+        for n in sir.walk(f.body):
+            if n.get("k") == "mcall" and n["m"].startswith("next") and sir.expr_str(n["recv"]).replace(" ", "") == "self.parser":
+                raw.append((f, n, pm))
+    probs = []
+    for f, n, pm in raw:
+        if n["m"] != "next_including_whitespace_and_comments":
+            probs.append("%s reads a token with cssparser's `%s`, which silently skips comments after the position was sampled" % (f.name, n["m"]))
+            continue
+        # enclosing statement and its predecessor
+        cur = n
+        prev = None
+        while id(cur) in pm:
+            par = pm[id(cur)]
+            if par.get("k") == "block":
+                idx = [i for i, st in enumerate(par["stmts"]) if st is cur]
+                if idx:
+                    prev = par["stmts"][idx[0] - 1] if idx[0] > 0 else None
+                    blk = par
+                    break
+            cur = par
+        if not (prev is not None and prev.get("k") == "local" and prev["pat"].get("name") == "position" and prev.get("init") is not None and sir.expr_str(prev["init"]).replace(" ", "") == "self.position()"):
+            probs.append("%s: the statement before the token read is not `let position = self.position()`" % f.name)
+            continue
+        lits = [x for x in sir.walk(blk) if x.get("k") == "struct" and sir.expr_str(x).startswith("StepToken")]
+        if not lits or not all(any(fl["name"] == "position" and sir.expr_str(fl["e"]) == "position" for fl in x["fields"]) for x in lits):
+            probs.append("%s: the StepToken built from that read does not carry that position" % f.name)
+        cm = [x for x in sir.walk(blk) if x.get("k") in ("if", "match") and "Token::Comment" in sir.expr_str(x.get("cond") or x.get("e")) + " ".join(sir.pat_str(a["pat"]) for a in x.get("arms", [])) + (sir.pat_str(x["cond"]["pat"]) if x.get("k") == "if" and x["cond"].get("k") == "let" else "")]
+        if not cm:
+            probs.append("%s: comments are not filtered out of the raw token stream" % f.name)
+    obs.append(ob("%s.src/sampled-at-token" % prefix, bool(raw) and not probs, "glass-easel-stylesheet-compiler/src/step.rs",
+                  "; ".join(probs) if probs else "%d raw token read(s), each `next_including_whitespace_and_comments` directly after `let position = self.position()`, comments skipped by re-sampling" % len(raw),
+                  witness=None if not probs else "`.a/*c*/.b{}`: the second `.` is mapped to the comment's column"))
+    for nm, inner in (("next", "next_including_whitespace"), ("peek", "peek_including_whitespace")):
+        g = [f for f in sps if f.name == nm]
         if g:
-            nodes = list(sir.walk(g[0].body))
-            p = [i for i, n in enumerate(nodes) if n.get("k") == "mcall" and n["m"] == "position"]
-            t = [i for i, n in enumerate(nodes) if n.get("k") == "mcall" and n["m"] == "next_including_whitespace" and "parser" in sir.expr_str(n["recv"])]
-            obs.append(ob("%s.src/%s" % (prefix, nm), bool(p) and bool(t) and p[0] < t[0], ctx.where(g[0]), "the token position is taken before the token is consumed: %s" % (bool(p) and bool(t) and p[0] < t[0])))
+            st = g[0].body["stmts"]
+            okw = len(st) == 2 and sir.expr_str(st[0].get("e")).replace(" ", "") == "self.parser.skip_whitespace()" and sir.expr_str(st[1].get("e")).replace(" ", "") == "self.%s()" % inner
+            obs.append(ob("%s.src/%s" % (prefix, nm), okw, ctx.where(g[0]), "%s() = skip blanks and comments, then %s(): %s" % (nm, inner, okw)))
+    g = [f for f in sps if f.name == "peek_including_whitespace"]
+    if g:
+        nodes = [n for n in sir.walk(g[0].body) if n.get("k") == "mcall"]
+        names = [n["m"] for n in nodes]
+        okp = "state" in names and "reset" in names and "next_including_whitespace" in names and names.index("state") < names.index("next_including_whitespace") < names.index("reset") and "position" not in names
+        obs.append(ob("%s.src/peek_including_whitespace" % prefix, okp, ctx.where(g[0]), "peeking is reading (with the same position rule) between state() and reset(): %s" % okp))
     return obs
